@@ -198,7 +198,39 @@ def run(chk):
                 sub = len_of_value(n.value)
             elif isinstance(n.value, ast.Constant):
                 default = n.value.value
+    # the fractional format is chosen only for HHMMSS.<digits>: the dot is at index 6 on every path that selects it
+    from .. import pathcond
+    from ..cfg import cfg_of as _cfg
+    g_ts = _cfg(gtf)
+    fsel = [n for n in own_nodes(gtf.node) if isinstance(n, (ast.Assign, ast.Return)) and n.value is not None and
+            any(isinstance(x, ast.Constant) and isinstance(x.value, str) and '%f' in x.value for x in ast.walk(n.value))]
+    if not fsel:
+        raise AnalysisError('_get_timestamp_format: no statement selects a fractional (%f) format')
+    p0 = gtf.params[0]
+    paths_f = []
+    for n in fsel:
+        paths_f += pathcond.conditions(g_ts, g_ts.node_for(n))
+    dot6 = pathcond.every_path_requires(paths_f, lambda t, pol: pol and isinstance(t, ast.Compare) and len(t.ops) == 1 and
+                                        isinstance(t.ops[0], ast.Eq) and {norm(t.left), norm(t.comparators[0])} == {'%s[6]' % p0, "'.'"})
+    chk.ob('C13-P', 'the fractional format is selected only when the dot is the seventh character (HHMMSS.f)', dot6,
+           'a fractional-seconds format is chosen without `%s[6] == \'.\'` on every path: strptime then accepts bodies with fewer than '
+           'six digits before the dot (one-digit hours / minutes) and the value is re-encoded as different text' % p0,
+           '%s:%d' % (gtf.module.relpath, fsel[0].lineno), key='C13-P|dot-position')
+    if dot6 and (lo is None or hi is None):
+        # the length interval by meaning: lengths for which some path to the fractional format is taken (dot tests true)
+        try:
+            lenv = 'len(%s)' % p0
+            atoms_ = {norm(x): True for conds_ in paths_f for t_, _o in conds_ for x in ast.walk(t_)
+                      if isinstance(x, ast.Compare) and "'.'" in norm(x)}
+            if atoms_:
+                sat = [L for L in range(0, 40) if pathcond.holds(paths_f, {lenv: L}, atoms_)]
+                if sat and sat == list(range(sat[0], sat[-1] + 1)) and sat[-1] < 39:
+                    lo, hi = sat[0], sat[-1]
+        except pathcond.Unknown:
+            pass
     if None in (lo, hi, sub, default):
+        if not dot6:
+            return              # already reported; the interval arithmetic below presupposes the positional form
         raise AnalysisError('_get_timestamp_format: precision arithmetic not recognised (%s)' % ((lo, hi, sub, default),))
     plo = phi = None
     for n in own_nodes(tm.node):
